@@ -239,3 +239,32 @@ package genetics
 //@     invariant sortedSpecies[0].ExpectedOffspring == opts.PopSize / 2 && sortedSpecies[1].ExpectedOffspring == opts.PopSize - opts.PopSize / 2
 //@     invariant forall k :: 2 <= k && k < i ==> sortedSpecies[k].ExpectedOffspring == 0
 //@     invariant sortedSpecies[0].Organisms[0].superChampOffspring <= sortedSpecies[0].ExpectedOffspring
+
+// ---- C07: compatibility distance ---------------------------------------------------------------
+// Reference definition (from the NEAT formula, for gene lists sorted by innovation number): walking both lists in
+// innovation order, genes with equal numbers match, a gene smaller than the other list's current gene is disjoint,
+// and once one list is exhausted the remaining genes of the other are excess. cmpD/cmpE/cmpM count the disjoint,
+// excess and matching genes from position (i1,i2) on; cmpW sums |mutation number difference| over the matching ones.
+//@ ufunc cmpD((Array Int Int), Int, Int, (Array Int Int), Int, Int, (Array Int Int), Int, Int) Int
+//@ ufunc cmpE((Array Int Int), Int, Int, (Array Int Int), Int, Int, (Array Int Int), Int, Int) Int
+//@ ufunc cmpM((Array Int Int), Int, Int, (Array Int Int), Int, Int, (Array Int Int), Int, Int) Int
+//@ ufunc cmpW((Array Int Int), Int, Int, (Array Int Int), Int, Int, (Array Int Int), (Array Int Float), Int, Int) Float
+//@ smtdef (define-fun-rec cmpD ((a (Array Int Int)) (oa Int) (na Int) (b (Array Int Int)) (ob Int) (nb Int) (IN (Array Int Int)) (i Int) (j Int)) Int (ite (or (>= i na) (>= j nb) (< i 0) (< j 0)) 0 (ite (= (select IN (select a (+ oa i))) (select IN (select b (+ ob j)))) (cmpD a oa na b ob nb IN (+ i 1) (+ j 1)) (ite (< (select IN (select a (+ oa i))) (select IN (select b (+ ob j)))) (+ 1 (cmpD a oa na b ob nb IN (+ i 1) j)) (+ 1 (cmpD a oa na b ob nb IN i (+ j 1)))))))
+//@ smtdef (define-fun-rec cmpE ((a (Array Int Int)) (oa Int) (na Int) (b (Array Int Int)) (ob Int) (nb Int) (IN (Array Int Int)) (i Int) (j Int)) Int (ite (or (< i 0) (< j 0)) 0 (ite (>= i na) (ite (>= j nb) 0 (- nb j)) (ite (>= j nb) (- na i) (ite (= (select IN (select a (+ oa i))) (select IN (select b (+ ob j)))) (cmpE a oa na b ob nb IN (+ i 1) (+ j 1)) (ite (< (select IN (select a (+ oa i))) (select IN (select b (+ ob j)))) (cmpE a oa na b ob nb IN (+ i 1) j) (cmpE a oa na b ob nb IN i (+ j 1))))))))
+//@ smtdef (define-fun-rec cmpM ((a (Array Int Int)) (oa Int) (na Int) (b (Array Int Int)) (ob Int) (nb Int) (IN (Array Int Int)) (i Int) (j Int)) Int (ite (or (>= i na) (>= j nb) (< i 0) (< j 0)) 0 (ite (= (select IN (select a (+ oa i))) (select IN (select b (+ ob j)))) (+ 1 (cmpM a oa na b ob nb IN (+ i 1) (+ j 1))) (ite (< (select IN (select a (+ oa i))) (select IN (select b (+ ob j)))) (cmpM a oa na b ob nb IN (+ i 1) j) (cmpM a oa na b ob nb IN i (+ j 1))))))
+//@ smtdef real: (define-fun-rec cmpW ((a (Array Int Int)) (oa Int) (na Int) (b (Array Int Int)) (ob Int) (nb Int) (IN (Array Int Int)) (MU (Array Int Real)) (i Int) (j Int)) Real (ite (or (>= i na) (>= j nb) (< i 0) (< j 0)) 0.0 (ite (= (select IN (select a (+ oa i))) (select IN (select b (+ ob j)))) (+ (ite (>= (- (select MU (select a (+ oa i))) (select MU (select b (+ ob j)))) 0.0) (- (select MU (select a (+ oa i))) (select MU (select b (+ ob j)))) (- (select MU (select b (+ ob j))) (select MU (select a (+ oa i))))) (cmpW a oa na b ob nb IN MU (+ i 1) (+ j 1))) (ite (< (select IN (select a (+ oa i))) (select IN (select b (+ ob j)))) (cmpW a oa na b ob nb IN MU (+ i 1) j) (cmpW a oa na b ob nb IN MU i (+ j 1))))))
+//@ func (*Genome).compatLinear
+//@   props C07
+//@   fdef
+//@   ufarith
+//@   requires g != nil && og != nil && opts != nil && nonNilGenes(g.Genes) && nonNilGenes(og.Genes)
+//@   modifies nothing
+//@   noalloc
+//@   ensures [formula] result == opts.DisjointCoeff * real(cmpD(arrOf(g.Genes), off(g.Genes), len(g.Genes), arrOf(og.Genes), off(og.Genes), len(og.Genes), heapOf(Gene.InnovationNum), 0, 0)) + opts.ExcessCoeff * real(cmpE(arrOf(g.Genes), off(g.Genes), len(g.Genes), arrOf(og.Genes), off(og.Genes), len(og.Genes), heapOf(Gene.InnovationNum), 0, 0)) + opts.MutdiffCoeff * (cmpM(arrOf(g.Genes), off(g.Genes), len(g.Genes), arrOf(og.Genes), off(og.Genes), len(og.Genes), heapOf(Gene.InnovationNum), 0, 0) == 0 ? 0.0 : cmpW(arrOf(g.Genes), off(g.Genes), len(g.Genes), arrOf(og.Genes), off(og.Genes), len(og.Genes), heapOf(Gene.InnovationNum), heapOf(Gene.MutationNum), 0, 0) / real(cmpM(arrOf(g.Genes), off(g.Genes), len(g.Genes), arrOf(og.Genes), off(og.Genes), len(og.Genes), heapOf(Gene.InnovationNum), 0, 0)))
+//@   loop 1:
+//@     invariant 0 <= i1 && i1 <= size1 && 0 <= i2 && i2 <= size2 && size1 == len(g.Genes) && size2 == len(og.Genes)
+//@     invariant numDisjoint + real(cmpD(arrOf(g.Genes), off(g.Genes), len(g.Genes), arrOf(og.Genes), off(og.Genes), len(og.Genes), heapOf(Gene.InnovationNum), i1, i2)) == real(cmpD(arrOf(g.Genes), off(g.Genes), len(g.Genes), arrOf(og.Genes), off(og.Genes), len(og.Genes), heapOf(Gene.InnovationNum), 0, 0))
+//@     invariant numExcess + real(cmpE(arrOf(g.Genes), off(g.Genes), len(g.Genes), arrOf(og.Genes), off(og.Genes), len(og.Genes), heapOf(Gene.InnovationNum), i1, i2)) == real(cmpE(arrOf(g.Genes), off(g.Genes), len(g.Genes), arrOf(og.Genes), off(og.Genes), len(og.Genes), heapOf(Gene.InnovationNum), 0, 0))
+//@     invariant numMatching + real(cmpM(arrOf(g.Genes), off(g.Genes), len(g.Genes), arrOf(og.Genes), off(og.Genes), len(og.Genes), heapOf(Gene.InnovationNum), i1, i2)) == real(cmpM(arrOf(g.Genes), off(g.Genes), len(g.Genes), arrOf(og.Genes), off(og.Genes), len(og.Genes), heapOf(Gene.InnovationNum), 0, 0))
+//@     invariant mutDiffTotal + cmpW(arrOf(g.Genes), off(g.Genes), len(g.Genes), arrOf(og.Genes), off(og.Genes), len(og.Genes), heapOf(Gene.InnovationNum), heapOf(Gene.MutationNum), i1, i2) == cmpW(arrOf(g.Genes), off(g.Genes), len(g.Genes), arrOf(og.Genes), off(og.Genes), len(og.Genes), heapOf(Gene.InnovationNum), heapOf(Gene.MutationNum), 0, 0)
+//@     invariant numMatching >= 0.0 && numDisjoint >= 0.0 && numExcess >= 0.0
